@@ -43,7 +43,7 @@ Deterministic(R) == Cardinality(R.ks) = 1 /\ ~R.free /\ Cardinality(R.ints) <= 1
 (* but has |p| >= 2^63 - 4096 may, by the documented test, come out as a    *)
 (* float; below that band it is the exact int; beyond 64 bits it is a float.*)
 (***************************************************************************)
-TimesBand == Sub(TwoTo63, FromInt(4096))
+TimesBand == [neg |-> FALSE, mag |-> <<1712, 5477, 368, 3372, 922>>]       \* 2^63 - 4096
 Times(a, b) == LET p == Mul(a, b) IN
                IF ~Fits64(p) THEN Float
                ELSE IF Cmp(Abs(p), TimesBand) >= 0 THEN IntOrFloat(p) ELSE Exact(p)
@@ -92,11 +92,10 @@ RECURSIVE Bits16(_, _, _, _)
 Bits16(T, x, y, n) == IF n = 0 THEN 0 ELSE T[(x % 2) + 1][(y % 2) + 1] + 2 * Bits16(T, x \div 2, y \div 2, n - 1)
 BitOp(T, a, b) == LET ca == Pattern(a)  cb == Pattern(b) IN OfPattern([i \in 1..4 |-> Bits16(T, ca[i], cb[i], 16)])
 BitNot(a) == Sub(Neg(a), One)
-Pow2Tab == [n \in 0..64 |-> Pow2(n)]
 ShiftCountOK(b) == ~b.neg /\ Cmp(b, FromInt(63)) <= 0
 Shift(op, a, b) ==
   IF ~ShiftCountOK(b) THEN Loose          \* "shifts beyond 63" or negative: a number or an error value
-  ELSE LET p == Pow2Tab[SmallVal(b)] IN
+  ELSE LET p == Pow2(SmallVal(b)) IN
        CASE op = "<<"  -> Exact(Wrap64(Mul(a, p)))
          [] op = ">>"  -> Exact(DivFloor(a, p))                                    \* signed (sign-propagating)
          [] op = ">>>" -> Exact(FromUnsigned(DivFloor(Unsigned64(a), p)))          \* unsigned (zero-filling)
@@ -184,23 +183,28 @@ Result(op, a, b, c) ==
 (***************************************************************************)
 IsMin(x) == x = MinInt64
 TwoTo53 == Pow2(53)
+Beyond53(x) == CmpMag(x.mag, TwoTo53.mag) > 0          \* not every integer of this size is a double
 Class(op, a, b, c) ==
   LET R == Result(op, a, b, c) IN
   CASE op \in TernaryOps /\ IsZero(c) -> "zero-modulus"
     [] op \in TernaryOps /\ c.neg -> "negative-modulus"
-    [] op \in {"/", "//", "%", "./", "roundm"} /\ IsZero(b) -> "zero-divisor"
-    [] op \in {"+", "-", ".+", ".-"} /\ (IsMin(a) \/ IsMin(b)) -> "min-int64-operand"
-    [] op \in {"neg", "abs"} /\ IsMin(a) -> "min-int64-operand"
-    [] op \in {"/", "//"} /\ IsMin(a) /\ b = Neg(One) -> "min-int64-by-minus-one"
-    [] op = "%" /\ ~IsZero(b) /\ IsZero(Mod(a, b)) -> "exact-multiple"
-    [] op = "**" /\ ~b.neg /\ R.ks = {"int"} /\ Cardinality(R.ints) = 1
-         /\ (\E v \in R.ints : CmpMag(v.mag, TwoTo53.mag) > 0) -> "exact-power-beyond-2^53"
-    [] op = "**" /\ ~b.neg /\ R.ks = {"float"} -> "power-beyond-64-bits"
-    [] op = "**" /\ b.neg -> "negative-exponent"
-    [] op = "roundm" /\ ~(Lt(Abs(a), TwoTo53) /\ Lt(Abs(b), TwoTo53)) -> "operand-beyond-2^53"
+    [] op = "mexp" /\ b.neg -> "negative-exponent"
+    [] op = "mexp" /\ (IsZero(b) \/ b = One) -> "exponent-0-or-1"
+    [] op = "mexp" /\ ~Fits64(Mul(a, a)) -> "base-squared-beyond-64-bits"
+    [] op = "mexp" /\ ~Fits64(Mul(c, c)) -> "modulus-squared-beyond-64-bits"
     [] op = "mmul" /\ ~Fits64(Mul(a, b)) -> "product-beyond-64-bits"
     [] op \in {"madd", "msub"} /\ ~Fits64(IF op = "madd" THEN Add(a, b) ELSE Sub(a, b)) -> "sum-beyond-64-bits"
-    [] op = "mexp" /\ ~b.neg /\ ~Fits64(Mul(c, c)) -> "modulus-beyond-32-bits"
+    [] op \in {"/", "//", "%", "./", "roundm"} /\ IsZero(b) -> "zero-divisor"
+    [] op \in {"+", "-"} /\ (IsMin(a) \/ IsMin(b)) -> "min-int64-operand"
+    [] op \in {"neg", "abs"} /\ IsMin(a) -> "min-int64-operand"
+    [] op \in {"abs", "ceil", "floor", "round"} /\ Beyond53(a) -> "operand-beyond-2^53"
+    [] op \in {"/", "//"} /\ IsMin(a) /\ b = Neg(One) -> "min-int64-by-minus-one"
+    [] op = "%" /\ IsZero(Mod(a, b)) -> "exact-multiple"
+    [] op = "**" /\ Abs(a) = One /\ Beyond53(b) -> "unit-base-exponent-beyond-2^53"
+    [] op = "**" /\ b.neg -> "negative-exponent"
+    [] op = "**" /\ R.ks = {"int"} /\ (\E v \in R.ints : Beyond53(v)) -> "exact-power-beyond-2^53"
+    [] op = "**" /\ R.ks = {"float"} -> "power-beyond-64-bits"
+    [] op = "roundm" /\ (Beyond53(a) \/ Beyond53(b)) -> "operand-beyond-2^53"
     [] op \in {"<<", ">>", ">>>"} /\ ~ShiftCountOK(b) -> "shift-count-out-of-range"
     [] OTHER -> "general"
 =============================================================================
